@@ -18,6 +18,7 @@ CLAIMED = {
  "C11": ("proof", "IsBatchReady postcondition taken verbatim from the statement; progressBatches / executeBatchReleasePlan transition postconditions over the ghost call log (Ready only after EnsureBatchPodsReadyAndLabeled returned nil in the same call, fall-back otherwise, Completed only after Finalize returned nil); control planes' Ensure/Finalize/UpgradeBatch; canary-style stable Finalize waits when the policy says so"),
  "C18": ("proof", "every finalizer removal is guarded: Rollout (Terminating condition reason Completed, which reconcileRolloutTerminating sets only after doFinalising returned (true,nil)), BatchRelease (phase Completed), TrafficRouting (typestate fact established only by FinalisingTrafficRouting returning (true,nil)); all paths including error returns; at most one finalizer write per call, own finalizer only"),
  "C17": ("proof", "NewRSReplicasLimit / NewRSNewReplicas / ResolveFenceposts / MaxSurge / MaxUnavailable against spec functions (never beyond the partition, never beyond replicas+maxSurge), replica sums by loop invariants, cleanupUnhealthyReplicas and scaleDownOldReplicaSetsForRollingUpdate with ghost accumulators over every scale call (budget, only unavailable pods, min-available), reconcileNewReplicaSet / reconcileOldReplicaSets / scaleUpOldReplicaSets"),
+ "C20": ("proof", "each conversion function against a field-by-field specification (steps, replicas, weight <-> \"w%\" traffic, header matches element-wise, pauses, traffic routing refs incl. custom network refs, style annotation <-> enableExtraWorkloadForCanary, status cursor and conditions, BatchRelease plan/batches/status), proved for slices of every length by loop invariants; frame of each conversion (nothing outside the destination object and its annotation map changes); the round trip v1alpha1 -> v1beta1 -> v1alpha1 as a harness function (tag verif) checked modularly against the two conversion contracts: same workload ref, steps (weight, replicas or the documented weight-as-percent default), matches, routings, status cursor, style read back as \"partition\" iff it was (case-insensitively) \"partition\". never-fails is proved except in four recorded regions (F7: schema-admitted objects without workloadRef / canary / any strategy make the conversion panic). Not covered: the v1beta1 -> v1alpha1 -> v1beta1 direction as a harness, PatchPodTemplateMetadata maps, the conversion of DeepCopy-generated code"),
 }
 NA_FIXED = {
  "C15": "substance lives in Lua scripts and untyped JSON trees (map[string]interface{} / unstructured round trips) outside the verifier's subset; abstracting them leaves nothing to prove",
